@@ -2713,6 +2713,26 @@ func init() {
 						}
 					}
 					os.RemoveAll(only)
+					// the usable file with the version field of a *neighbouring* version (a pre-release, a build tag, another
+					// patch level, other case, padding): written by another rapid, ignored — nothing is replayed from it
+					cur := rapid.VerifVersion
+					for _, ver := range []string{cur + "-rc1", cur + "+fork.2", cur + "-dev", cur + "0", cur + ".1", strings.ToUpper(cur), cur + " ", cur[1:], cur[:len(cur)-2], cur + "-"} {
+						vdir, _ := os.MkdirTemp(tmp, "c17v-")
+						_ = os.MkdirAll(filepath.Join(vdir, "testdata", "rapid", name), 0o775)
+						_ = os.WriteFile(filepath.Join(vdir, "testdata", "rapid", name, later), []byte(strings.Replace(string(usable), "\n"+cur+"#", "\n"+ver+"#", 1)), 0o644)
+						var other *tbRun
+						inDir(vdir, func() { other = runCheckTB(prog, fl, name, nil) })
+						m.tag("file-neighbouring-version")
+						m.eval("version"+ver+src+fmt.Sprint(fl.Seed), true)
+						replayed := len(other.in.invs) > 0 && other.in.invs[0].isBuf
+						if other.escaped != nil || other.verdict != without.verdict || randomDraws(other) != randomDraws(without) || replayed {
+							p := flagsStr(fl)
+							p["prog"], p["files"], p["version"] = src, "usable with version "+ver, ver
+							m.violate(violation{"C17", "unusable", fmt.Sprintf("a fail file written by version %q is not ignored: verdict %s, without files: %s (replayed from it: %v, crash: %v)",
+								ver, other.verdict, without.verdict, replayed, other.escaped), p})
+						}
+						os.RemoveAll(vdir)
+					}
 					// the usable file damaged so that every data line still *starts* like a word: trailing junk, two words on a
 					// line, a comment behind the word, a conflict marker — unusable; the verdict is that of a run without files
 					nData := 0
